@@ -52,7 +52,7 @@ func main() {
 		scs = []scenario{s}
 	} else {
 		scs = canonical()
-		n := c.N(300, 10000)
+		n := c.N(300, 8000)
 		base := c.Rand("scenarios")
 		for i := 0; i < n; i++ {
 			scs = append(scs, genScenario(base.ForkN("s", i), i))
